@@ -627,6 +627,15 @@ func (sp *Spec) ExpectedWithdrawals(st *State) []Withdrawal {
 		}
 		vIndex = (vIndex + 1) % uint64(len(st.Validators))
 	}
+	if uint64(len(out)) < sp.MAX_WITHDRAWALS_PER_PAYLOAD && bound == sp.MAX_VALIDATORS_PER_WITHDRAWALS_SWEEP && bound < uint64(len(st.Validators)) {
+		// the sweep stopped at its bound, not at the payload's capacity: the validator it stopped in front of is not looked at
+		sp.observe("withdrawal_sweeps_that_ended_at_the_bound")
+		v := &st.Validators[vIndex]
+		bal := st.Balances[vIndex]
+		if hasEth1Credential(v) && ((v.WithdrawableEpoch <= epoch && bal > 0) || (v.EffectiveBalance == sp.MAX_EFFECTIVE_BALANCE && bal > sp.MAX_EFFECTIVE_BALANCE)) {
+			sp.observe("withdrawal_sweeps_that_ended_at_the_bound_in_front_of_a_withdrawable_validator")
+		}
+	}
 	return out
 }
 
